@@ -13,7 +13,7 @@ import WzVerif.Lemmas.HttpEtag
 import WzVerif.Lemmas.HttpAuth
 import WzVerif.Lemmas.HttpCsp
 import WzVerif.Lemmas.DateText
-import WzVerif.Model.IfRange
+import WzVerif.Lemmas.IfRange
 namespace Wz.Props.C06
 open Wz Wz.Http
 
@@ -547,34 +547,33 @@ theorem ifRange_date_roundtrip (t : Nat) (h1 : tMin ≤ t) (h2 : t ≤ tMax) :
     cases hq : httpDate t with
     | nil => rw [hq] at this; simp [parseDate, parseImfFixdate] at this
     | cons _ _ => rfl
-  simp [ifRangeToHeader, Except.map, parseIfRange, hne, date_roundtrip_any t h1 h2]
+  have hl := looksLikeEtag_httpDate t
+  simp [ifRangeToHeader, Except.map, parseIfRange, hne, hl, date_roundtrip_any t h1 h2]
 
-/-- an entity tag in an `If-Range` header round-trips **provided the date parser rejects its quoted
-form** — for whatever date parser `pd` is in use (email.utils in the real code). -/
-theorem ifRange_etag_roundtrip_partial (pd : Str → Option Nat) (e : Str) (hq : e.contains '"' = false)
-    (hpd : pd ('"' :: (e ++ ['"'])) = none) :
+/-- an entity tag in an `If-Range` header round-trips for **every** tag without `"` and for whatever
+date parser `pd` is in use (`email.utils` in the real code): since repair 31f8ea0 a value that
+starts with `"` is never offered to the date parser (former finding F06a). -/
+theorem ifRange_etag_roundtrip (pd : Str → Option Nat) (e : Str) (hq : e.contains '"' = false) :
     (ifRangeToHeader (.etag e)).map (parseIfRange pd) = .ok (.etag e) := by
   have h := unquote_quoteEtag e false hq
   simp only [quoteEtag, hq, Bool.false_eq_true, if_false, Except.map, List.nil_append, List.cons_append] at h
   simp only [Except.ok.injEq] at h
   have hq' : ¬ ('"' ∈ e) := by simpa using hq
-  simp [ifRangeToHeader, quoteEtag, hq', Except.map, parseIfRange, hpd, h]
+  have hl : looksLikeEtag ('"' :: (e ++ ['"'])) = true := by
+    simp [looksLikeEtag, lstrip, List.dropWhile_cons, show Py.isSpace '"' = false from by decide]
+  simp [ifRangeToHeader, quoteEtag, hq', Except.map, parseIfRange, hl, h]
 
-example : (fun _ => none : Str → Option Nat) ('"' :: ("abc".toList ++ ['"'])) = none := rfl
+example : ("Thu, 01 Jan 2026 00:00:00 GMT".toList).contains '"' = false := by decide
 
-/-- known finding F06a: the hypothesis above cannot be dropped. Any date parser that accepts the
-quoted text `"Thu, 01 Jan 2026 00:00:00 GMT"` — `email.utils` does; the known-finding replay checks
-it on the real code every run — turns that entity tag into a date. -/
-theorem ifRange_etag_roundtrip_full_false (pd : Str → Option Nat) (t : Nat)
-    (hpd : pd "\"Thu, 01 Jan 2026 00:00:00 GMT\"".toList = some t) :
-    (ifRangeToHeader (.etag "Thu, 01 Jan 2026 00:00:00 GMT".toList)).map (parseIfRange pd)
-      ≠ .ok (.etag "Thu, 01 Jan 2026 00:00:00 GMT".toList) := by
-  have hh : ifRangeToHeader (.etag "Thu, 01 Jan 2026 00:00:00 GMT".toList)
-      = .ok "\"Thu, 01 Jan 2026 00:00:00 GMT\"".toList := by decide
-  rw [hh]
-  simp only [Except.map, parseIfRange, hpd]
-  have : "\"Thu, 01 Jan 2026 00:00:00 GMT\"".toList.isEmpty = false := by decide
-  simp [this]
+/-- regression F06a: even a date parser that would accept the quoted text cannot turn the tag into a
+date any more -/
+theorem ifRange_etag_date_lookalike (t : Nat) :
+    (ifRangeToHeader (.etag "Thu, 01 Jan 2026 00:00:00 GMT".toList)).map (parseIfRange fun _ => some t)
+      = .ok (.etag "Thu, 01 Jan 2026 00:00:00 GMT".toList) :=
+  ifRange_etag_roundtrip _ _ (by decide)
+
+/-- `quote_etag` refuses a tag containing `"` -/
+theorem ifRange_etag_roundtrip_needs_no_quote : ifRangeToHeader (.etag ['a', '"']) = .error "ValueError" := by decide
 
 /-! ### parsing is a normal form (on the image of the dumpers; for list and set headers see above
 for arbitrary text) -/
